@@ -49,4 +49,20 @@ TEXT["C19"] = {
     "note": _TB + "Partial: std RwLock semantics (writer preference) are modelled, not verified; an operation the harness does not enumerate is not covered; real blocking is not exhibited by the model, the probe turns it into a deterministic report.",
     "technique": "Lean 4 deadlock-freedom proof for flat lock traces + monitored flatness of every enumerated operation via a try_write probe hook",
 }
+TEXT["C01"] = {
+    "level": "Machine-checked refinement proof (no bound on rank, extents, history length): for every configuration with a lossless chain (C03), injective keys (C11) and a grid built from a "
+             "configuration compatible with the shape (C10), after ANY in-bounds history of store_chunk/store_chunks/store_chunk_subset/store_array_subset/erase_chunk/erase_chunks from the empty store, "
+             "retrieve_array_subset, retrieve_chunk, retrieve_chunk_subset and retrieve_chunks return element for element the abstract array 'last write wins, erased or never written = fill', "
+             "including the overhang of edge chunks. The model is tied to the implementation (12 data types, all registered lossless codecs, both grid kinds, 4 key encodings, 5 store kinds, reopened "
+             "handles) by differential histories, and on every run each read is additionally judged against the abstract array itself.",
+    "note": _TB + "External compressors enter through the assumed law decode(encode x)=x (exercised, not proved); byte-level layout of decoded chunks (ArrayBytes fixed/variable) is below the element-level model and covered by the correspondence.",
+    "technique": "Lean 4 refinement proof (per-chunk invariant, induction over histories) + differential histories judged against model and abstract spec",
+}
+TEXT["C04"] = {
+    "level": "Machine-checked proof (same refinement invariant as C01): with elision on, after any history a chunk key is present iff the chunk holds a non-fill element; only chunk keys are written; "
+             "with store_empty_chunks every whole-chunk write is stored; a chunk is elided only if all elements equal fill; an absent chunk reads as fill. Tied to the code by fill-heavy differential "
+             "histories with the key listing compared after every operation (NaN payloads, -0.0, repeated-fill strings).",
+    "note": _TB + "The 128-bit fast paths of equals_all are exercised, not modelled; shard-internal elision is checked by C05's shard parser.",
+    "technique": "Lean 4 invariant proof (key present iff non-fill) + differential histories with key listings after every operation",
+}
 NOT_YET = {}
